@@ -3,7 +3,8 @@
 //	sec replay <cases.json> <out.ndjson>      cases chosen by TLC (MC_C06_gen / MC_C07_gen lattice) run on the real functions
 //	sec record cipher|mac <out.ndjson>        seeded random calls of the ciphering / integrity entry points
 //	sec hist <histories.json> <out.ndjson>    C08: call histories on real payload buffers (chosen by TLC)
-//	sec record08 <out.ndjson>                 C08: seeded histories, guard cube, nil / empty payloads
+//	sec record08 <out.ndjson>                 C08: the full guard cube and seeded histories
+//	sec cube Encrypt|Mac <alg> <out.ndjson>   C08: one slice of the guard cube
 //
 // The driver only calls the library and writes what it saw; every verdict is taken by TLC.
 package main
@@ -12,6 +13,7 @@ import (
 	"encoding/json"
 	"math/rand"
 	"os"
+	"strconv"
 
 	"verifharness/internal/ev"
 
@@ -255,6 +257,12 @@ func main() {
 		hist(os.Args[2], os.Args[3])
 	case "record08":
 		record08(os.Args[2])
+	case "cube": // sec cube Encrypt|Mac <alg> <out>: one slice of the guard cube (re-run of an observation)
+		alg, _ := strconv.Atoi(os.Args[3])
+		s := newWorld(ev.Rng(), ev.Create(os.Args[4]))
+		s.reset()
+		s.cube(os.Args[2], alg)
+		s.w.Close()
 	default:
 		ev.Fatal("unknown subcommand")
 	}
